@@ -66,7 +66,10 @@ def run_check(pid, module, tier, seed, replay=None):
         counts = {}
         for k in {(o.rule, o.key) for o in ctx.obs}:
             counts[k[0]] = counts.get(k[0], 0) + 1
-        for rule, fl in floors.items():
+        for rule, measured in floors.items():
+            # FLOORS holds the instance counts measured on the reviewed tree; a rule may lose a few
+            # instances to a refactor, but not collapse (vacuous pass)
+            fl = max(1, int(measured * 0.7))
             if counts.get(rule, 0) < fl:
                 raise Broken('rule %s examined %d instances, below the floor %d counted on the reviewed tree '
                              '(anchors moved or the rule went vacuous)' % (rule, counts.get(rule, 0), fl))
